@@ -54,7 +54,7 @@ def eq_coverage(repo, c, model, f):
     cov = {}
 
     def note(field, **kw):
-        d = cov.setdefault(field, dict(full=False, keys=False, zipped=False, len=False, numeq=False, plain=False, node=None))
+        d = cov.setdefault(field, dict(full=False, keys=False, zipped=False, len=False, numeq=False, plain=False, part=False, node=None))
         for k, v in kw.items():
             if k == "node":
                 if d["node"] is None:
@@ -79,6 +79,8 @@ def eq_coverage(repo, c, model, f):
                         note(f1, len=True)
                     elif fl1 == "keys" and fl2 == "keys":
                         note(f1, keys=True, node=node)
+                    elif "part" in (fl1, fl2) and {fl1, fl2} <= {"part", "full"}:
+                        note(f1, part=True, node=node)
 
     def visit(node, env):
         if isinstance(node, ast.Compare) and len(node.ops) == 1 and isinstance(node.ops[0], (ast.Eq, ast.NotEq)):
@@ -128,6 +130,10 @@ def run(repo, rep, tier):
                 rep.finding("R9.1", f, d["node"], f"field `{fld}` is compared element-wise through zip() without a length "
                             f"equality: an extra trailing element on one side is invisible to ==",
                             stmt=f"{fld}: zip without length check")
+            elif d and d["part"]:
+                rep.finding("R9.1", f, d["node"], f"field `{fld}` is compared only over a slice (`{norm(d['node'])[:80]}`): the elements the "
+                            f"slice drops are invisible to ==, so two aggregators that differ there compare equal",
+                            stmt=f"{fld}: compared over a slice only")
             elif d and d["keys"]:
                 rep.finding("R9.1", f, d["node"], f"field `{fld}` is a dict and only its keys are compared (iterating/sorting "
                             f"a dict yields keys): two aggregators with different contents in the same bins compare equal",
@@ -162,6 +168,117 @@ def run(repo, rep, tier):
             rep.finding("R9.3", ne, ne.node, "__ne__ is not `not self == other`: != is not the negation of ==",
                         stmt="__ne__ shape")
     rule_numeq(repo, rep, r5)
+    # ---------------- R9.6 user functions: the quantity whose name is serialised is part of ==, and UserFcn.__eq__ sees name and expr
+    r6 = rep.rule("R9.6", "serialised quantities are compared by __eq__; UserFcn.__eq__ depends on name and expr on every path", floor=12)
+    for c in prims:
+        tj = repo.own_method(c, "toJsonFragment")
+        f = repo.own_method(c, "__eq__")
+        sn = tj.params[0]
+        named = sorted({n.value.attr for n in walk_local_stmt(tj.node) if isinstance(n, ast.Attribute) and n.attr == "name"
+                        and isinstance(n.value, ast.Attribute) and isinstance(n.value.value, ast.Name) and n.value.value.id == sn
+                        and n.value.attr in USERFCN_FIELDS})
+        if not named:
+            continue
+        flds, wit = conj_fields(f)
+        for q in named:
+            ok = q in flds
+            r6.ob(ok, f"{c.name}.__eq__: `{q}` (its name is serialised) is compared")
+            if not ok:
+                rep.finding("R9.6", f, (wit.stmt if wit is not None else f.node), f"toJsonFragment serialises `{sn}.{q}.name`, but `{q}` does not "
+                            f"take part in {c.name}.__eq__ on every accepting path: two aggregators that differ only in their quantity "
+                            f"(name) compare equal although their serialised documents differ", stmt=f"{q}: not compared")
+    um = repo.modules.get("histogrammar.util")
+    uf = um.classes.get("UserFcn") if um else None
+    ueq = repo.own_method(uf, "__eq__") if uf is not None else None
+    if ueq is None:
+        raise AnalysisError("histogrammar.util.UserFcn.__eq__ not found")
+    rep.analysed_functions.add(ueq.construct)
+    flds, wit = conj_fields(ueq)
+    for need in ("name", "expr"):
+        ok = need in flds
+        r6.ob(ok, f"UserFcn.__eq__ depends on `{need}` on every path")
+        if not ok:
+            rep.finding("R9.6", ueq, (wit.stmt if wit is not None else ueq.node), f"on some path the value returned by UserFcn.__eq__ does not depend "
+                        f"on `{need}` of both operands (an assignment discards the comparisons made before it): every primitive's "
+                        f"`self.quantity == other.quantity` then ignores a difference in `{need}`", stmt=f"UserFcn.__eq__: {need} dropped")
+
+
+def conj_fields(f):
+    """Fields f such that on every path the value returned by an __eq__-like function is False whenever
+    self.f and other.f differ: forward must-analysis of the conjunctions the result is built from.
+    Returns (set of fields, the return node that determines the minimum)."""
+    sn, on = f.params[0], f.params[1]
+    g = cfgmod.build(f.node)
+    from ..cfg import solve_forward
+
+    def root_field(e, who):
+        """self.expr.__code__.co_code -> 'expr' when rooted at `who`"""
+        cur = e
+        last = None
+        while isinstance(cur, ast.Attribute):
+            last = cur.attr
+            cur = cur.value
+        if isinstance(cur, ast.Name) and cur.id == who:
+            return last
+        return None
+
+    def deps(e, env):
+        if isinstance(e, ast.BoolOp):
+            ds = [deps(v, env) for v in e.values]
+            if isinstance(e.op, ast.And):
+                out = set()
+                for d in ds:
+                    out |= d
+                return out
+            out = ds[0]
+            for d in ds[1:]:
+                out = out & d
+            return out
+        if isinstance(e, ast.Name):
+            return set(env.get(e.id, ()))
+        if isinstance(e, ast.Compare) and len(e.ops) == 1 and isinstance(e.ops[0], ast.Eq):
+            a, b = e.left, e.comparators[0]
+            for x, y in ((a, b), (b, a)):
+                fa, fb = root_field(x, sn), root_field(y, on)
+                if fa is not None and fa == fb and ast.unparse(x)[len(sn):] == ast.unparse(y)[len(on):]:
+                    return {fa}
+            return set()
+        if isinstance(e, ast.Call) and (call_name(e) or "").split(".")[-1] == "numeq" and len(e.args) >= 2:
+            fa, fb = root_field(e.args[0], sn), root_field(e.args[1], on)
+            if fa is not None and fa == fb:
+                return {fa}
+            fa, fb = root_field(e.args[1], sn), root_field(e.args[0], on)
+            if fa is not None and fa == fb:
+                return {fa}
+        return set()
+
+    # states are frozensets of (variable, frozenset of fields) pairs (a dict would be read as per-edge states by the solver)
+    def transfer(node, st0):
+        st = dict(st0)
+        if node.kind == "stmt" and isinstance(node.ast, ast.Assign) and len(node.ast.targets) == 1 and isinstance(node.ast.targets[0], ast.Name):
+            st[node.ast.targets[0].id] = frozenset(deps(node.ast.value, st))
+        elif node.kind == "stmt" and isinstance(node.ast, ast.AugAssign) and isinstance(node.ast.target, ast.Name):
+            st[node.ast.target.id] = frozenset()
+        return frozenset(st.items())
+
+    def join(a, b):
+        a, b = dict(a), dict(b)
+        return frozenset((k, a[k] & b[k]) for k in a.keys() & b.keys())
+
+    states = solve_forward(g, frozenset(), transfer, join)
+    result = None
+    witness = None
+    for n in g.nodes:
+        if n.kind == "stmt" and isinstance(n.ast, ast.Return) and n.id in states:
+            v = n.ast.value
+            # `return False` is a rejecting exit: it cannot make two different objects equal
+            if isinstance(v, ast.Constant) and v.value is False:
+                continue
+            d = deps(v, dict(states[n.id])) if v is not None else set()
+            if result is None or not (result <= d):
+                witness = n if result is None or len(d) < len(result) else witness
+            result = d if result is None else (result & d)
+    return (result or set()), witness
 
 
 def rule_isinstance_first(repo, rep, r2, c, f):
